@@ -266,7 +266,10 @@ class C14(Prop):
             "prism grids with node sets holding exactly 3 of the 4 nodes of a quadrilateral face), split "
             "discretisation, partial discretisation, update after parameter change through discretize(update_discretization=True) "
             "and through the method update_discretization (modified cells and faces), inverter "
-            "backends. Non-trivial = more than one subproblem or a proper active set.")
+            "backends; directed: simplex grids (triangles 5x5..6x6, Delaunay on 11-15 "
+            "points, small tetrahedral grids) cut into 5-12 subproblems, kept only if some face is "
+            "shared by >= 3 subproblems, for Mpfa, Mpsa and Biot in turn (maximum multiplicity in "
+            "the evidence). Non-trivial = more than one subproblem or a proper active set.")
     trusted = [
         "pp.partition.partition (external; its output is an input of the model)",
         "locality of the MPFA/MPSA/Biot kernels: hypothesis local_ok, tested by the oracle only",
@@ -307,9 +310,18 @@ class C14(Prop):
     def generate(self, rng, n, tier):
         kinds = ["book_sub", "book_active", "split", "partial", "book_sub", "book_active",
                  "split", "partial", "update", "inverter", "split", "book_active",
-                 "update_method", "update_method", "dir_partial", "dir_active"]
+                 "update_method", "update_method", "dir_partial", "dir_active",
+                 "dir_split", "dir_split"]
+        n_dir_split = 0
         for i in range(n):
             kind = kinds[i % len(kinds)]
+            if kind == "dir_split":
+                # directed stream: simplex grids cut into many subproblems (5-12) so that the
+                # partition has cross points: faces discretised by THREE or more subproblems
+                disc = ["mpfa", "mpsa", "biot"][n_dir_split % 3]
+                n_dir_split += 1
+                yield self._many_parts_case(rng, tier, disc)
+                continue
             if kind in ("dir_partial", "dir_active"):
                 # directed stream: sheared prism grid (triangular AND quadrilateral faces),
                 # node set containing exactly 3 of the 4 nodes of some quadrilateral face
@@ -351,6 +363,57 @@ class C14(Prop):
                 if kind == "update_method" and rng.random() < 0.3:
                     case["spec"]["faces"] = [rng.random()]
             yield case
+
+    def _many_parts_case(self, rng, tier, disc):
+        from porepy.numerics.fv import _fvutils
+        import warnings
+
+        case = None
+        for _ in range(12):
+            r = rng.random()
+            if r < 0.4:
+                grid = {"type": "tri", "n": [rng.randint(5, 6), rng.randint(5, 6)],
+                        "perturb": rng.choice([0, 0.2]), "pseed": rng.randrange(10**6)}
+                k = rng.randint(5, 9)
+            elif r < 0.8 or (disc != "mpfa" and tier == "quick"):
+                grid = {"type": "delaunay", "n": [rng.randint(11, 15)], "perturb": 0,
+                        "pseed": rng.randrange(10**6)}
+                k = rng.randint(5, 9)
+            else:
+                big = tier != "quick" and disc == "mpfa"
+                grid = {"type": "tet", "n": rng.choice([[2, 1, 1], [2, 2, 1]] + ([[2, 2, 2]] if big else [])),
+                        "perturb": 0, "pseed": 0}
+                k = rng.choice([5, 9, 12])
+            case = {"kind": "split", "grid": grid, "dseed": rng.randrange(10**6), "disc": disc,
+                    "k": k, "how": "num_subproblems"}
+            # keep the draw only if some face is shared by at least three subproblems
+            with warnings.catch_warnings():
+                warnings.simplefilter("ignore")
+                g = make_grid(grid)
+                subs = list(_fvutils.subproblems(g, 1000, None, k))
+            mult = np.bincount(np.concatenate([np.asarray(t[1], dtype=int) for t in subs]))
+            if mult.max() >= 3:
+                break
+        return case
+
+    def extra_evidence(self):
+        return {"face_multiplicity": {
+            "max_over_split_cases": self._max_mult,
+            "split_cases_with_multiplicity_ge_3": dict(self._ge3),
+            "split_cases": dict(self._nsplit)}}
+
+    _max_mult = 0
+    _ge3: dict = {}
+    _nsplit: dict = {}
+
+    def _note_mult(self, disc, reps):
+        m = max(reps) if reps else 0
+        if not self._ge3 and not self._nsplit:
+            self._ge3, self._nsplit = {}, {}
+        self._max_mult = max(self._max_mult, m)
+        self._nsplit[disc] = self._nsplit.get(disc, 0) + 1
+        if m >= 3:
+            self._ge3[disc] = self._ge3.get(disc, 0) + 1
 
     @staticmethod
     def _pick(g, spec):
@@ -467,6 +530,7 @@ class C14(Prop):
             res["num_part"] = rec_part[0][0] if rec_part else 1
             res["part"] = rec_part[0][1] if rec_part else [0] * g.num_cells
             res["reps"] = ints(np.bincount(np.concatenate([s["faces"] for s in rec_subs]).astype(int)))
+            self._note_mult(disc, res["reps"])
             # one call per subproblem inside the loop (mpfa; mpsa/biot make further calls)
             res["elim"] = rec_elim[: len(rec_subs)] if disc == "mpfa" else None
             return res
